@@ -2,6 +2,7 @@ import os
 import pathlib
 import re
 import shutil
+import stat
 from typing import List
 
 from conductor.context import Context
@@ -35,6 +36,26 @@ def register_command(subparsers):
         "they are deleted.",
     )
     parser.set_defaults(func=main)
+
+
+def _remove_output_dir(path: pathlib.Path) -> None:
+    """
+    Removes a task output directory. The task may have made parts of its output
+    read-only (e.g., a package cache); removing an entry of a directory that is
+    not writable fails. When that happens we make the directory accessible to
+    ourselves and try again, instead of silently leaving the output behind.
+    """
+
+    def retry(func, failed_path, _exc_info):
+        os.chmod(os.path.dirname(failed_path), stat.S_IRWXU)
+        if func in (os.rmdir, os.unlink, os.remove):
+            func(failed_path)
+        else:
+            # The directory itself could not be listed or opened.
+            os.chmod(failed_path, stat.S_IRWXU)
+            shutil.rmtree(failed_path, onerror=retry)
+
+    shutil.rmtree(path, onerror=retry)
 
 
 @cli_command
@@ -81,4 +102,4 @@ def main(args):
             for exp_path in to_delete:
                 if args.verbose:
                     print("Deleting", os.path.relpath(exp_path, cwd))
-                shutil.rmtree(exp_path, ignore_errors=True)
+                _remove_output_dir(exp_path)
